@@ -220,6 +220,87 @@ func TestVerifC17SM4(t *testing.T) {
 				gKey.Free()
 				gNonce.Free()
 			}
+			// a SHARED record header (write-protected, no spare capacity) used by every goroutine as dst prefix AND additional
+			// data, while one goroutine floods the same AEAD with more than 2^16 forgeries: every genuine record must keep
+			// opening, every sealed record must be the standard one, the header must stay what it is
+			{
+				key := rng.Bytes(16)
+				blk, _ := NewCipher(key)
+				a, err := cipher.NewGCM(blk)
+				if err == nil {
+					g := ref.NewGCM(key)
+					hdrV := rng.Bytes(13)
+					hdr := protect(hdrV)
+					type rec struct{ nonce, pt, sealed []byte }
+					var recs []rec
+					for _, l := range []int{0, 1, 17, 64, 200} {
+						n, p := rng.Bytes(12), rng.Bytes(l)
+						recs = append(recs, rec{n, p, g.Seal(n, p, hdrV, 16)})
+					}
+					nw := 8
+					bad := make([]int, nw+1)
+					var wg sync.WaitGroup
+					start := make(chan struct{})
+					for w := 0; w < nw; w++ {
+						wg.Add(1)
+						go func(w int) {
+							defer wg.Done()
+							<-start
+							p, _, _, _ := hk.Try(func() {
+								for it := 0; it < hk.N(3000, 30000); it++ {
+									rc := &recs[(it+w)%len(recs)]
+									out := a.Seal(hdr.B[:len(hdrV):len(hdrV)], rc.nonce, rc.pt, hdr.B)
+									if len(out) != len(hdrV)+len(rc.sealed) || !bytes.Equal(out[len(hdrV):], rc.sealed) || !bytes.Equal(out[:len(hdrV)], hdrV) {
+										bad[w]++
+									}
+									pt, e := a.Open(hdr.B[:len(hdrV):len(hdrV)], rc.nonce, rc.sealed, hdr.B)
+									if e != nil || !bytes.Equal(pt[len(hdrV):], rc.pt) {
+										bad[w]++
+									}
+								}
+							})
+							if p {
+								bad[w] += 1000000
+							}
+						}(w)
+					}
+					wg.Add(1)
+					go func() {
+						defer wg.Done()
+						<-start
+						forged := append([]byte{}, recs[2].sealed...)
+						for it := 0; it < 1<<16+500; it++ {
+							forged[it%len(forged)] ^= byte(1 + it%200)
+							if _, e := a.Open(nil, recs[2].nonce, forged, hdr.B); e == nil && !bytes.Equal(forged, recs[2].sealed) {
+								bad[nw]++
+							}
+						}
+					}()
+					close(start)
+					wg.Wait()
+					// and afterwards, alone: the AEAD that took the flood still opens what is genuine
+					for i := range recs {
+						if pt, e := a.Open(nil, recs[i].nonce, recs[i].sealed, hdrV); e != nil || !bytes.Equal(pt, recs[i].pt) {
+							bad[nw]++
+						}
+					}
+					for w := range bad {
+						if bad[w] != 0 {
+							what := "concurrent-open-differs-from-serial-result:shared-header-as-dst-prefix-and-aad-during-a-forgery-flood"
+							if bad[w] >= 1000000 {
+								what = "concurrent-seal-writes-to-shared-input:shared-header-as-dst-prefix-and-aad"
+							}
+							r.Violation(what+":"+pn, hk.D{"key": hk.Hex(key), "goroutine": w, "wrong_results": bad[w] % 1000000})
+							break
+						}
+					}
+					if !bytes.Equal(hdr.B, hdrV) {
+						r.Violation("shared-header-changed:"+pn, hk.D{})
+					}
+					hdr.Free()
+					r.EvalN("shared-header-and-forgery-flood:"+pn, nw*hk.N(3000, 30000)*2+1<<16)
+				}
+			}
 			// ONE Block hammered with blocks that do NOT start on a 16-byte boundary, a phase of its own (expected
 			// results prepared beforehand, nothing but the cipher inside the goroutines)
 			{
